@@ -162,6 +162,9 @@ def oracle(case, res):
             return f"span {g['id']} differs after cleaning: {g} expected {w}"
         if len(roots.get(g["job"], [])) != 1 and {k: v for k, v in g.items() if k != "name"} != {k: v for k, v in w.items() if k != "name"}:
             return f"span {g['id']}: a field other than the workflow name changed"
+    stale = [(p, c) for p, c in res["assoc"] if c not in {e["id"] for e in got}]
+    if stale:
+        return f"association rows left for spans that were deleted: {stale[:3]} (re-ingesting those spans would fail)"
     if res.get("pv_cf") is not None and res["pv"] != res["pv_cf"]:
         return "PV sequences differ from those produced had the removed traces never been ingested"
     return None
@@ -171,18 +174,20 @@ def cases_v(items) -> str:
     rows = []
     for case, res in items:
         nodes0, assoc0, _ = res["before"]
-        exp = "None" if res["status"] != "ok" else f"(Some {S.coq_nodes(res['nodes'])})"
+        exp = "None" if res["status"] != "ok" else f"(Some ({S.coq_nodes(res['nodes'])}, {S.coq_pairs(res['assoc'])}))"
         rows.append(f"(({coq_z(case['buf'])}, {coq_z(res['mn'])}, {coq_z(res['mx'])}, {S.coq_store(nodes0, assoc0)}), {exp})")
     body = ";\n ".join(rows)
     return f"""From Coq Require Import ZArith List Bool. Import ListNotations.
 From V Require Import Store.Rel Store.Clean.
 Open Scope positive_scope.
-Definition run (c : Z * Z * Z * store) : option (list node) :=
+Definition run (c : Z * Z * Z * store) : option (list node * list (positive * positive)) :=
   let '(b, mn, mx, st) := c in
-  match window b mn mx with Some w => Some (db (clean w st)) | None => None end.
-Definition oeq (a b : option (list node)) : bool :=
-  match a, b with Some x, Some y => list_eqb node_eqb x y | None, None => true | _, _ => false end.
-Definition cases : list ((Z * Z * Z * store) * option (list node)) := [
+  match window b mn mx with Some w => Some (db (clean w st), assoc (clean w st)) | None => None end.
+Definition oeq (a b : option (list node * list (positive * positive))) : bool :=
+  match a, b with
+  | Some x, Some y => list_eqb node_eqb (fst x) (fst y) && list_eqb pair_eqb (snd x) (snd y)
+  | None, None => true | _, _ => false end.
+Definition cases : list ((Z * Z * Z * store) * option (list node * list (positive * positive))) := [
  {body}].
 Eval vm_compute in (1%nat, idx (fun c => oeq (run (fst c)) (snd c)) cases).
 """
@@ -220,7 +225,7 @@ def run(out: common.Outcome, explore: int = 0) -> None:
                        "nodes_after": r["nodes"], "status": r["status"]})
     if ok and not out.violations and (dis or coq_fail):
         out.violation({"kind": "correspondence-broken",
-                       "relation": "nodes table after the three cleaning calls == db (V.Store.Clean.clean (window buf min max) store)",
+                       "relation": "nodes and NODE_ASSOCIATION tables after the three cleaning calls == db/assoc of V.Store.Clean.clean (window buf min max) store",
                        "first_disagreements": [{"case": items[k][0], "nodes_after": items[k][1]["nodes"]} for k in dis[:3]],
                        "coq_failures": coq_fail[:2]}, no_failing_input=True)
     removed = sum(1 for c, r in items if r["status"] == "ok" and len(r["nodes"]) < len(r["before"][0]))
